@@ -177,6 +177,30 @@ def run(tier):
     chk.cov["shipped_files"] = len(files)
     chk.cov["mutants"] = len(reqs) - len(files)
 
+    # ---- (c) numeric literals: every literal must be the same number on both runtimes
+    lits = []
+    for m in ("1", "3", "7", "11", "123", "999", "1024", "65504", "65505", "70000"):
+        for sc in ("", "0.", "0.0", "0.00", "0.000", "0.0000", "0.00000", "0.000000", "0.00000000", "."):
+            lits.append((sc + m) if sc != "." else (m + ".5"))
+    lits += ["0.1", "0.2", "0.3", "0.001", "0.0001", "3.14159265358979", "2.718281828459045", "6.283185307179586",
+             "440", "44100", "48000", "0.5", "0.25", "0.333333333333", "1000000", "4294967296", "9007199254740993",
+             "0.00001", "0.000009", "12345.678", "0.99999", "1.00001", "2047.9", "2049", "4097", "32769"]
+    lreqs = []
+    for i, l in enumerate(lits):
+        lreqs.append({"id": f"lit{i}", "src": f"fn dsp(){{ ({l}, now * {l} + {l}, 0 - {l}) }}\n", "n": 4,
+                      "backends": ["vm", "wasm"], "sched": True})
+    for req, out, crash in vlib.run_harness("run", lreqs, timeout_per_req=20):
+        nprog += 1
+        key = vlib.canon_key(req["src"])
+        if crash or out is None:
+            chk.violation(f"runtime process died on {req['src']}: {crash}", {"src": req["src"]}, key=key)
+            continue
+        rid = f"lit:{req['id']}"
+        records.append({"id": rid, "a": langpipe.side(out["vm"]), "b": langpipe.side(out["wasm"]), "cmpwords": False})
+        meta[rid] = (req["src"], {"src": req["src"]}, key)
+        nontrivial.add(key)
+    chk.cov["literals"] = len(lits)
+
     # ---- pinned findings (specific inputs)
     pins = pinned_cases()
     preqs = []
